@@ -142,6 +142,15 @@ func (c *Ctx) ensureEffects() {
 							fmt.Sscanf(w.Root, "p%d", &idx)
 							if idx < len(actual) {
 								nw.Root = c.rootClass(fn, actual[idx])
+								// a store through a pointer parameter (`*slot = v`) where the caller hands in the
+								// address of a field writes that field
+								if w.Field == "*" {
+									if fa, isFA := actual[idx].(*ssa.FieldAddr); isFA {
+										if owner, f, _ := fieldOf(fa); f != nil {
+											nw.Field = fieldKey(owner, f)
+										}
+									}
+								}
 							} else {
 								nw.Root = "unknown"
 							}
